@@ -115,7 +115,8 @@ Undecided == {"nothing", "inStatusLine", "afterStatusLine"}
 Refusal == {"bareOther", "otherFieldLine", "otherComplete"}
 
 Read100Fails(s, e) ==
-       FClause("C11", "well-formed server input made try_read_100 fail", e.res = "ok")
+       \* (a status line without the space after the code is outside the grammar: refusing it outright is not judged)
+       FClause("C11", "well-formed server input made try_read_100 fail", e.res = "ok" \/ ("lenient" \in DOMAIN e /\ e.lenient))
   \cup (IF e.res # "ok" THEN {} ELSE
         FClause("C11", "input ending inside or right after the status line must decide nothing and consume nothing",
                e.cls \in Undecided => (e.n = 0 /\ e.keep))
@@ -154,17 +155,23 @@ ResponseFails(s, e) ==
                          s.skipped >= 1 => e.res = "some")
        [] OTHER ->
             FClause("C09", "a complete well-formed response head was not accepted",
-                    IF ms = {ErrMode} THEN e.res = "err" ELSE (e.res = "some" /\ e.n = e.mlen /\ e.ready))
+                    IF ms = {ErrMode} THEN e.res = "err"
+                    ELSE (e.res = "some" /\ e.n = e.mlen /\ e.ready) \/ ("lenient" \in DOMAIN e /\ e.lenient /\ e.res = "err"))
+
+\* close conditions established by the response head itself: Connection: close, and a body that only the close delimits
+\* (a fact of the response, whether or not the flow goes on to read that body)
+HeadFacts(facts, e) ==
+  facts \cup (IF e.connclose THEN {"ServerClose"} ELSE {}) \cup (IF Close \in Modes(e.cell) THEN {"CloseDelimited"} ELSE {})
 
 ResponseUpd(s, e) ==
   IF Together(s, e)
   THEN [s EXCEPT !.await100 = FALSE, !.skipped = @ + 1, !.status = e.cell.status, !.modes = Modes(e.cell), !.ready = e.ready,
-                    !.facts = IF e.connclose THEN @ \cup {"ServerClose"} ELSE @]
+                    !.facts = HeadFacts(@, e)]
   ELSE IF e.kind = "late100" /\ s.await100 /\ e.res = "none" /\ e.n > 0
   THEN [s EXCEPT !.await100 = FALSE, !.skipped = @ + 1]
   ELSE IF e.kind = "final" /\ e.res = "some"
   THEN [s EXCEPT !.status = e.cell.status, !.modes = Modes(e.cell), !.ready = e.ready,
-                    !.facts = IF e.connclose THEN @ \cup {"ServerClose"} ELSE @]
+                    !.facts = HeadFacts(@, e)]
   ELSE s
 
 \* must_close_connection() / close_reason() in Redirect and Cleanup: e = [must_close, reason ("" if none)]
